@@ -3,6 +3,7 @@
 #include "../common/engine.hpp"
 #include "../common/keygen.hpp"
 #include "pgm/pgm_index.hpp"
+#include <deque>
 #include <sstream>
 
 namespace vf {
@@ -75,6 +76,8 @@ CaseResult run_static(const RunCtx &ctx, TapeReader &t, unsigned size_hint) {
     const bool nested = t.chance(1, 10); // construct from inside a caller's OpenMP parallel region
     // a second index of the same instantiation, built later over every other key, is alive during the queries and queried itself
     const bool bystander = t.chance(1, 6) && keys.size() <= (size_t(1) << 20);
+    // the range handed to the constructor: vector iterators (1/2), std::deque iterators (random access, not contiguous), raw pointers
+    const unsigned src = (unsigned) t.below(4);
     const size_t n = keys.size();
     const bool c01 = ctx.prop == "C01", c02 = ctx.prop == "C02", c07 = ctx.prop == "C07";
     const bool mem = ctx.mode == "mem";
@@ -101,7 +104,17 @@ CaseResult run_static(const RunCtx &ctx, TapeReader &t, unsigned size_hint) {
     if (c07) pgm::verif::SegLog<K>::sink = &sessions;
     StaticProbe<K, Eps, ER, F> idx;
     try {
-        run_maybe_nested(nested, [&] { idx = StaticProbe<K, Eps, ER, F>(keys.begin(), keys.end()); });
+        run_maybe_nested(nested, [&] {
+            if (src == 2 && n <= (size_t(1) << 20)) {
+                std::deque<K> dq(keys.begin(), keys.end());
+                idx = StaticProbe<K, Eps, ER, F>(dq.begin(), dq.end());
+            } else if (src == 3)
+                idx = StaticProbe<K, Eps, ER, F>(keys.data(), keys.data() + n);
+            else
+                idx = StaticProbe<K, Eps, ER, F>(keys.begin(), keys.end());
+        });
+        if (src == 2 && n <= (size_t(1) << 20)) res.label("source_deque_iterators");
+        if (src == 3) res.label("source_raw_pointers");
         if (nested) res.label("built_inside_parallel_region");
     } catch (const std::exception &e) {
         pgm::verif::SegLog<K>::sink = nullptr;
